@@ -1,4 +1,4 @@
-import CardVerif.Model.Basic
+import CardModel.Model.Basic
 /-!
 # IEEE-754 binary64 arithmetic as correctly rounded rationals
 
